@@ -98,16 +98,54 @@ pub fn caps(pull: bool) -> ClientCapabilities {
     serde_json::from_value(v).expect("caps")
 }
 
+thread_local! {
+    /// what this thread's scratch workspace currently holds on disk (None = unknown/dirty)
+    static ON_DISK: std::cell::RefCell<Option<(PathBuf, Vec<(String, String)>)>> = const { std::cell::RefCell::new(None) };
+}
+
+/// Brings the scratch workspace to exactly `files`. Directory creation/removal in a shared
+/// parent serialises the worker threads in the kernel, so the tree is only touched where it
+/// differs from what the previous execution on this thread left behind.
 fn write_disk(root: &Path, files: &[(String, String)]) {
-    let _ = std::fs::remove_dir_all(root);
-    std::fs::create_dir_all(root).expect("mkdir ws");
-    for (rel, text) in files {
-        let p = root.join(rel);
-        if let Some(d) = p.parent() {
-            std::fs::create_dir_all(d).ok();
+    let known = ON_DISK.with(|d| d.borrow().clone());
+    match known {
+        Some((r, have)) if r == root => {
+            if have == files {
+                return;
+            }
+            for (rel, _) in &have {
+                if !files.iter().any(|(r2, _)| r2 == rel) {
+                    let _ = std::fs::remove_file(root.join(rel));
+                }
+            }
+            for (rel, text) in files {
+                if have.iter().any(|(r2, t2)| r2 == rel && t2 == text) {
+                    continue;
+                }
+                let p = root.join(rel);
+                if let Some(d) = p.parent() {
+                    std::fs::create_dir_all(d).ok();
+                }
+                std::fs::write(&p, text).expect("write ws file");
+            }
         }
-        std::fs::write(&p, text).expect("write ws file");
+        _ => {
+            let _ = std::fs::remove_dir_all(root);
+            std::fs::create_dir_all(root).expect("mkdir ws");
+            for (rel, text) in files {
+                let p = root.join(rel);
+                if let Some(d) = p.parent() {
+                    std::fs::create_dir_all(d).ok();
+                }
+                std::fs::write(&p, text).expect("write ws file");
+            }
+        }
     }
+    ON_DISK.with(|d| *d.borrow_mut() = Some((root.to_path_buf(), files.to_vec())));
+}
+
+fn mark_disk_dirty() {
+    ON_DISK.with(|d| *d.borrow_mut() = None);
 }
 
 fn rel_of(uri: &Uri, root_uri: &str) -> String {
@@ -133,18 +171,32 @@ pub fn install_panic_recorder() {
 
 /// Runs `scn` once under the schedule `prefix` (then default choices). `root` is a scratch
 /// directory private to the calling thread.
+pub static PROFILE: std::sync::atomic::AtomicBool = std::sync::atomic::AtomicBool::new(false);
+fn prof(label: &str, t: &mut std::time::Instant) {
+    if PROFILE.load(std::sync::atomic::Ordering::Relaxed) {
+        eprintln!("  {label}: {:.2} ms", t.elapsed().as_secs_f64() * 1000.0);
+    }
+    *t = std::time::Instant::now();
+}
+
 pub fn run(scn: &Scenario, prefix: &[usize], root: &Path) -> EndState {
     PANICS.with(|p| p.borrow_mut().clear());
+    let mut t = std::time::Instant::now();
     write_disk(root, &scn.disk);
+    prof("write_disk", &mut t);
     let root = root.canonicalize().unwrap_or(root.to_path_buf());
     let rt = tokio::runtime::Builder::new_current_thread().enable_all().start_paused(true).build().expect("runtime");
+    prof("runtime build", &mut t);
     let out = rt.block_on(drive(scn, prefix, root));
+    prof("drive", &mut t);
     verif::uninstall();
     drop(rt);
+    prof("runtime drop", &mut t);
     out
 }
 
 async fn drive(scn: &Scenario, prefix: &[usize], root: PathBuf) -> EndState {
+    let mut t = std::time::Instant::now();
     let root_uri_full = file_path_to_uri(&root).expect("root uri");
     let root_uri = root_uri_full.as_str().trim_end_matches('/').to_string();
     let t0 = tokio::time::Instant::now();
@@ -161,15 +213,29 @@ async fn drive(scn: &Scenario, prefix: &[usize], root: PathBuf) -> EndState {
     let mut server = VerifServer::new(conn, &params, init_rx);
     let ctx: ServerContextSnapshot = server.snapshot();
 
+    prof("  server new", &mut t);
     // name the server's locks (first use decides the canonical index; the hook touches each once)
     server.context().verif_touch_locks(&mut |n| verif::label_next(n));
 
     // ---- deterministic initialisation pre-phase (what initialized_handler does, minus client round-trips)
-    let mut emmyrc_json = serde_json::to_value(Emmyrc::default()).unwrap_or(json!({}));
-    merge(&mut emmyrc_json, &scn.emmyrc);
-    let mut emmyrc: Emmyrc = serde_json::from_value(emmyrc_json).unwrap_or_default();
-    emmyrc.pre_process_emmyrc(&root);
-    let emmyrc = Arc::new(emmyrc);
+    // the configuration is a pure function of the scenario's overrides: build it once per thread
+    // (no path expansion is needed — the overrides never contain paths — and
+    // pre_process_emmyrc would spawn an external `luarocks` lookup on every call)
+    thread_local! { static EMMYRC: std::cell::RefCell<Option<(String, Arc<Emmyrc>)>> = const { std::cell::RefCell::new(None) }; }
+    let key = scn.emmyrc.to_string();
+    let emmyrc: Arc<Emmyrc> = EMMYRC.with(|c| {
+        let mut c = c.borrow_mut();
+        if let Some((k, e)) = c.as_ref() {
+            if *k == key {
+                return e.clone();
+            }
+        }
+        let mut emmyrc_json = serde_json::to_value(Emmyrc::default()).unwrap_or(json!({}));
+        merge(&mut emmyrc_json, &scn.emmyrc);
+        let e: Arc<Emmyrc> = Arc::new(serde_json::from_value(emmyrc_json).unwrap_or_default());
+        *c = Some((key.clone(), e.clone()));
+        e
+    });
     let folders = vec![WorkspaceFolder::new(root.clone(), false)];
     {
         let mut wm = ctx.workspace_manager().write().await;
@@ -177,7 +243,9 @@ async fn drive(scn: &Scenario, prefix: &[usize], root: PathBuf) -> EndState {
         wm.client_config = ClientConfig::default();
         wm.update_match_state(emmyrc.as_ref());
     }
+    prof("  emmyrc", &mut t);
     init_analysis(ctx.analysis(), ctx.status_bar(), ctx.file_diagnostic(), ctx.lsp_features(), folders, emmyrc.clone(), Vec::new()).await;
+    prof("  init_analysis", &mut t);
     let _ = init_tx.send(());
 
     let mut seen: Vec<Seen> = Vec::new();
@@ -203,6 +271,7 @@ async fn drive(scn: &Scenario, prefix: &[usize], root: PathBuf) -> EndState {
             apply(&ch, t0, &tx, &scn.client_answers).await;
         }
     }
+    prof("  pre-phase", &mut t);
     let pre_events = verif::trace().len();
 
     // ---- the explored phase: the real server loop as a tracked task, client messages pre-loaded
@@ -272,6 +341,7 @@ async fn drive(scn: &Scenario, prefix: &[usize], root: PathBuf) -> EndState {
         let Some(ch) = ctl.decide(&en, running, &names, extra) else { break };
         match &ch {
             Choice::Disk { .. } => {
+                mark_disk_dirty();
                 let (rel, text) = disk_left.remove(0);
                 let p = root.join(&rel);
                 let typ = match text {
@@ -304,6 +374,7 @@ async fn drive(scn: &Scenario, prefix: &[usize], root: PathBuf) -> EndState {
         seen.push(Seen { step, msg: m });
     }
 
+    prof("  explored phase", &mut t);
     // ---- observations at the end (nothing else can run: all tasks parked, blocked or done)
     let final_tasks = verif::tasks();
     let events: Vec<verif::Ev> = verif::trace().into_iter().skip(pre_events).collect();
@@ -347,6 +418,7 @@ async fn drive(scn: &Scenario, prefix: &[usize], root: PathBuf) -> EndState {
             }
         }
     }
+    prof("  end observations", &mut t);
     server_task.abort();
     let panics = PANICS.with(|p| p.borrow().clone());
     EndState {
